@@ -242,6 +242,18 @@ def assemble_module(asm, name, with_contracts=True):
     outside = cfg.get('outside_verus')
     if outside:
         asm.log.append('%s: the extracted items are emitted OUTSIDE verus! (compiled verbatim into the enumeration driver, not verified)' % name)
+    if outside and any(b[2] for b in body):
+        # items that have an overlay are verified: they go into a verus! block of their own, in front of the verbatim ones
+        asm.add('verus! {\n')
+        for k, text, annotated, changed in [b for b in body if b[2]]:
+            if cfg.get('make_pub') and k and k.startswith('fn '):
+                text = re.sub(r'(^|\n)(\s*)fn ', lambda mm: mm.group(1) + mm.group(2) + 'pub fn ', text, count=1)
+            l0 = asm.line(); asm.add(text)
+            if not text.endswith('\n'): asm.add('\n')
+            if k is not None:
+                asm.items.append(dict(module=name, key=k, line_start=l0, line_end=asm.line() - 1, annotated=annotated, changed_tokens=changed))
+        asm.add('\n} // verus!\n')
+        body = [b for b in body if not b[2]]
     asm.add('verus! {\n' if not outside else '// plain Rust, verbatim from /repo (not verified)\n')
     for k, text, annotated, changed in body:
         if cfg.get('make_pub') and k and k.startswith('fn '):
